@@ -199,6 +199,20 @@ type Peer struct {
 	TS     time.Time
 	autoHB bool    // answer Heartbeat Requests of the agent
 	HBSeen []Dgram // Heartbeat Requests received from the agent (answered or not)
+	// Policy, when set, decides how an agent-originated request (Heartbeat Request, Association Setup Request) is
+	// answered: it gets the datagram and how many transmissions with that sequence number have been seen (1 = first)
+	// and returns the answers to send (possibly none).
+	Policy  func(d Dgram, nth int) []Answer
+	ReqSeen []Dgram        // every agent-originated request seen while Policy is set (with arrival time)
+	seqCnt  map[uint32]int // transmissions per sequence number
+}
+
+// Answer is one response the scripted peer sends to an agent-originated request.
+type Answer struct {
+	Delay   time.Duration
+	SeqDiff int // added to the request's sequence number (0 = correct answer)
+	Cause   uint8 // Association Setup Response cause (0 = accepted)
+	NoCause bool  // omit the Cause IE
 }
 
 // NewPeer binds local ("127.0.0.1:0") and addresses the agent at remote ("127.7.0.1:8805").
@@ -250,6 +264,46 @@ func (p *Peer) reader() {
 		d := Decode(append([]byte(nil), buf[:n]...), time.Now())
 
 		p.mu.Lock()
+		if pol := p.Policy; pol != nil && (d.TypeNum == int(message.MsgTypeHeartbeatRequest) || d.TypeNum == int(message.MsgTypeAssociationSetupRequest)) {
+			if p.seqCnt == nil {
+				p.seqCnt = map[uint32]int{}
+			}
+
+			p.seqCnt[d.Seq]++
+			nth := p.seqCnt[d.Seq]
+			p.ReqSeen = append(p.ReqSeen, d)
+			p.mu.Unlock()
+
+			for _, a := range pol(d, nth) {
+				go func(a Answer, d Dgram) {
+					if a.Delay > 0 {
+						time.Sleep(a.Delay)
+					}
+
+					seq := uint32(int(d.Seq)+a.SeqDiff) & 0xFFFFFF
+
+					if d.TypeNum == int(message.MsgTypeHeartbeatRequest) {
+						_ = p.Send(message.NewHeartbeatResponse(seq, ie.NewRecoveryTimeStamp(p.TS)))
+						return
+					}
+
+					ies := []*ie.IE{ie.NewNodeID(p.NodeID, "", ""), ie.NewRecoveryTimeStamp(p.TS)}
+					if !a.NoCause {
+						c := a.Cause
+						if c == 0 {
+							c = ie.CauseRequestAccepted
+						}
+
+						ies = append(ies, ie.NewCause(c))
+					}
+
+					_ = p.Send(message.NewAssociationSetupResponse(seq, ies...))
+				}(a, d)
+			}
+
+			continue
+		}
+
 		if d.TypeNum == int(message.MsgTypeHeartbeatRequest) {
 			// agent-originated heartbeats are kept apart from the answers to the script's own requests
 			p.HBSeen = append(p.HBSeen, d)
@@ -273,6 +327,21 @@ func (p *Peer) Close() {
 	p.closed = true
 	p.mu.Unlock()
 	p.conn.Close()
+}
+
+// SetPolicy installs (or removes, with nil) the answer policy for agent-originated requests.
+func (p *Peer) SetPolicy(f func(d Dgram, nth int) []Answer) {
+	p.mu.Lock()
+	p.Policy = f
+	p.mu.Unlock()
+}
+
+// Requests returns a copy of the agent-originated requests seen under a policy.
+func (p *Peer) Requests() []Dgram {
+	p.mu.Lock()
+	defer p.mu.Unlock()
+
+	return append([]Dgram(nil), p.ReqSeen...)
 }
 
 // SetAutoHB switches the automatic answering of the agent's Heartbeat Requests on or off.
